@@ -181,7 +181,10 @@ impl EchoIncPayloadAnsCreator {
     }
 
     /// Fill payload and properly mutate this as required.
+    ///
+    /// A request longer than the answer can hold is truncated to the answer's capacity.
     pub fn payload(&mut self, data: &[u8]) -> &mut Self {
+        let data = &data[..data.len().min(EchoIncPayloadAnsPayload::max_len())];
         self.data[1..=data.len()].iter_mut().zip(data.iter()).for_each(|(dst, &src)| {
             *dst = src.wrapping_add(1);
         });
